@@ -98,6 +98,17 @@ func main() {
 			}
 			fmt.Printf("%s\t%s\t%s\t%s\n", spec.File, strings.TrimPrefix(k, spec.Pkg+"."), strings.Join(ns, ", "), strings.Join(ls, " ;; "))
 		}
+	case "fvwrites":
+		p, _, err := loadAll("/repo")
+		if err != nil {
+			fmt.Fprintln(os.Stderr, err)
+			os.Exit(2)
+		}
+		for k, f := range p.Funcs {
+			for _, w := range interferingWrites(p, f) {
+				fmt.Println(k, w)
+			}
+		}
 	case "uncovered":
 		p, sp, err := loadAll("/repo")
 		if err != nil {
